@@ -225,6 +225,10 @@ func (eng *Engine) Verify(con *Contract) (*VC, error) {
 	vc.safetyN = map[string]int{}
 	vc.usedCallCl = map[string]bool{}
 	vc.allowPanic = con.AllowPanic
+	vc.noSafety = con.NoSafety
+	if con.NoSafety {
+		vc.trustNotes = append(vc.trustNotes, "no-panic obligations of "+con.Key+" are not generated (nosafety): absence of panics in it is assumed")
+	}
 	vc.adapter = eng.adapterFor(con.Key)
 	fr := newFrame(vc, fn, nil)
 	fr.top = true
